@@ -155,6 +155,11 @@ theorem Path.of_reach_path {a b c : α} (h1 : Reach E a b) (h2 : Path E b c) : P
   | single e => exact h1.toPath e
   | tail _ e ih => exact .tail ih e
 
+theorem Path.of_edge_reach {a b c : α} (e : E a b) (h : Reach E b c) : Path E a c := by
+  induction h with
+  | refl => exact .single e
+  | tail _ e' ih => exact .tail ih e'
+
 theorem Path.mono (h : ∀ x y, E' x y → E x y) {a b : α} (p : Path E' a b) : Path E a b := by
   induction p with
   | single e => exact .single (h _ _ e)
@@ -347,5 +352,489 @@ theorem checkLoop_terminates (hs : ∀ x y, y ∈ succ x ↔ E x y) {R : List Re
           exact hempty r hr x (by rw [show k + (j' + 1) = k + 1 + j' by omega]; exact p)
 
 end Check
+
+
+/-! ## the registry's maps -/
+
+/-- `a` watches `b` -/
+def EdgeOf (so : Map) (a b : Res) : Prop := b ∈ so.get a
+
+def Edge (s : State) : Res → Res → Prop := EdgeOf s.subsOf
+
+theorem mem_nodes_of_get {m : Map} {x y : Res} (h : y ∈ Map.get m x) : y ∈ nodes m := by
+  induction m with
+  | nil => simp [Map.get, Assoc.find?] at h
+  | cons kv m ih =>
+    obtain ⟨k, v⟩ := kv
+    simp only [nodes, List.flatMap_cons, List.mem_append, List.mem_cons]
+    unfold Map.get at h
+    simp only [Assoc.find?] at h
+    by_cases hk : k = x
+    · simp only [hk, if_true, Option.getD_some] at h
+      exact .inl (.inr h)
+    · simp only [hk, if_false] at h
+      exact .inr (ih h)
+
+theorem mem_get_addTo (sub : Res) (xs : List Res) : ∀ (m : Map) (y z : Res),
+    z ∈ Map.get (addTo m sub xs) y ↔ z ∈ Map.get m y ∨ (y ∈ xs ∧ z = sub) := by
+  induction xs with
+  | nil => intro m y z; simp [addTo]
+  | cons x xs ih =>
+    intro m y z
+    simp only [addTo, ih, Map.get_set, List.mem_cons]
+    by_cases hxy : x = y
+    · subst hxy; simp only [if_true, mem_ins]
+      constructor
+      · rintro ((h | h) | ⟨h1, h2⟩)
+        · exact .inr ⟨by simp, h⟩
+        · exact .inl h
+        · exact .inr ⟨.inr h1, h2⟩
+      · rintro (h | ⟨_, h2⟩)
+        · exact .inl (.inr h)
+        · exact .inl (.inl h2)
+    · simp only [hxy, if_false]
+      constructor
+      · rintro (h | ⟨h1, h2⟩)
+        · exact .inl h
+        · exact .inr ⟨.inr h1, h2⟩
+      · rintro (h | ⟨h1 | h1, h2⟩)
+        · exact .inl h
+        · exact absurd h1.symm hxy
+        · exact .inr ⟨h1, h2⟩
+
+theorem nodup_get_addTo (sub : Res) (xs : List Res) : ∀ (m : Map),
+    (∀ y, (Map.get m y).Nodup) → ∀ y, (Map.get (addTo m sub xs) y).Nodup := by
+  induction xs with
+  | nil => intro m h y; simpa [addTo] using h y
+  | cons x xs ih =>
+    intro m h y
+    simp only [addTo]
+    apply ih
+    intro y'
+    rw [Map.get_set]
+    split
+    · exact nodup_ins (h x)
+    · exact h y'
+
+theorem mem_get_removeFrom (sub : Res) (xs : List Res) : ∀ (m : Map) (y z : Res),
+    z ∈ Map.get (removeFrom m sub xs) y ↔ z ∈ Map.get m y ∧ ¬ (y ∈ xs ∧ z = sub) := by
+  induction xs with
+  | nil => intro m y z; simp [removeFrom]
+  | cons x xs ih =>
+    intro m y z
+    simp only [removeFrom, ih, Map.get_set, List.mem_cons]
+    by_cases hxy : x = y
+    · subst hxy; simp only [if_true, mem_rem]
+      constructor
+      · rintro ⟨⟨h1, h2⟩, _⟩
+        exact ⟨h1, fun ⟨_, h⟩ => h2 h⟩
+      · rintro ⟨h1, h2⟩
+        exact ⟨⟨h1, fun h => h2 ⟨by simp, h⟩⟩, fun ⟨h3, h4⟩ => h2 ⟨.inr h3, h4⟩⟩
+    · simp only [hxy, if_false]
+      constructor
+      · rintro ⟨h1, h2⟩
+        refine ⟨h1, ?_⟩
+        rintro ⟨h3 | h3, h4⟩
+        · exact hxy h3.symm
+        · exact h2 ⟨h3, h4⟩
+      · rintro ⟨h1, h2⟩
+        exact ⟨h1, fun ⟨h3, h4⟩ => h2 ⟨.inr h3, h4⟩⟩
+
+theorem nodup_get_removeFrom (sub : Res) (xs : List Res) : ∀ (m : Map),
+    (∀ y, (Map.get m y).Nodup) → ∀ y, (Map.get (removeFrom m sub xs) y).Nodup := by
+  induction xs with
+  | nil => intro m h y; simpa [removeFrom] using h y
+  | cons x xs ih =>
+    intro m h y
+    simp only [removeFrom]
+    apply ih
+    intro y'
+    rw [Map.get_set]
+    split
+    · exact nodup_rem (h x)
+    · exact h y'
+
+/-- the part of the invariant that concerns the two subscription maps -/
+structure MapsGood (so sr : Map) : Prop where
+  inv : ∀ a b, b ∈ so.get a ↔ a ∈ sr.get b
+  acyclic : Acyclic (EdgeOf so)
+  nodupSubs : ∀ a, (so.get a).Nodup
+  nodupSubscribers : ∀ a, (sr.get a).Nodup
+
+/-- no consumer in the model: every item put is still unfinished -/
+def QInv (qs : Assoc Queue) : Prop := ∀ r q, qs.find? r = some q → q.unfinished = q.items.length
+
+def Good (s : State) : Prop := MapsGood s.subsOf s.subscribersOf ∧ QInv s.queues
+
+theorem good_init : Good init := by
+  refine ⟨⟨?_, ?_, ?_, ?_⟩, ?_⟩
+  · intro a b; simp [init, Map.get, Assoc.find?]
+  · intro a p
+    have : ∀ {x y}, Path (EdgeOf init.subsOf) x y → False := by
+      intro x y p
+      induction p with
+      | single e => simp [EdgeOf, init, Map.get, Assoc.find?] at e
+      | tail _ _ ih => exact ih
+    exact this p
+  · intro a; simp [init, Map.get, Assoc.find?]
+  · intro a; simp [init, Map.get, Assoc.find?]
+  · intro r q h; simp [init, Assoc.find?] at h
+
+/-! ### the cycle check on a state -/
+
+theorem succ_edge (s : State) : ∀ x y, y ∈ s.subs x ↔ Edge s x y := fun _ _ => Iff.rfl
+
+theorem check_sound (s : State) (sub : Res) (rs : List Res)
+    (h : checkForCycles s sub rs = .cycle) : ∃ r ∈ rs, Reach (Edge s) r sub :=
+  checkLoop_cycle_sound (succ_edge s) sub _ 0 _ (isLevel_zero rs) h
+
+theorem check_complete (s : State) (sub : Res) (rs : List Res) (hac : Acyclic (Edge s))
+    (fuel : Nat) (hf : (nodes s.subsOf).length + 2 ≤ fuel) :
+    checkLoop s.subs sub fuel (dedup rs) ≠ .outOfFuel ∧
+    ((∃ r ∈ rs, Reach (Edge s) r sub) → checkLoop s.subs sub fuel (dedup rs) = .cycle) := by
+  have hV : ∀ x y, Edge s x y → y ∈ nodes s.subsOf := fun x y e => mem_nodes_of_get e
+  constructor
+  · apply checkLoop_terminates (succ_edge s) sub fuel 0 ((nodes s.subsOf).length + 1) _ (isLevel_zero rs)
+      (by omega)
+    intro r _ x p
+    have := pathN_le_nodes hac hV p
+    omega
+  · rintro ⟨r, hr, hre⟩
+    obtain ⟨n, p⟩ := hre.toPathN
+    have hn := pathN_le_nodes hac hV p
+    exact checkLoop_cycle_complete (succ_edge s) sub fuel 0 n _ (isLevel_zero rs) (by omega)
+      ⟨r, hr, by simpa using p⟩
+
+theorem check_nil (s : State) (sub : Res) : checkForCycles s sub [] = .ok := by
+  simp [checkForCycles, fuelFor, checkLoop, dedup]
+
+/-! ### the two mutations keep the maps good -/
+
+theorem mapsGood_applyOnly {s : State} (h : MapsGood s.subsOf s.subscribersOf) (sub : Res) (rs : List Res)
+    (hnew : ∀ r ∈ rs, ¬ Reach (Edge s) r sub) :
+    MapsGood (applyOnly s sub rs).subsOf (applyOnly s sub rs).subscribersOf := by
+  have hmem : ∀ a b, a ∈ Map.get (applyOnly s sub rs).subscribersOf b ↔
+      (a ∈ Map.get s.subscribersOf b ∨ ((b ∈ rs ∧ b ∉ Map.get s.subsOf sub) ∧ a = sub)) ∧
+        ¬ ((b ∈ Map.get s.subsOf sub ∧ b ∉ rs) ∧ a = sub) := by
+    intro a b
+    simp [applyOnly, mem_get_removeFrom, mem_get_addTo]
+  refine ⟨?_, ?_, ?_, ?_⟩
+  · intro a b
+    rw [hmem]
+    simp only [applyOnly, Map.get_set]
+    by_cases ha : sub = a
+    · subst ha
+      simp only [if_true, mem_dedup]
+      have := h.inv sub b
+      by_cases h1 : b ∈ rs <;> by_cases h2 : b ∈ Map.get s.subsOf sub <;> simp_all
+    · have ha' : a ≠ sub := fun e => ha e.symm
+      simp only [ha, if_false, ha', and_false, or_false, not_false_eq_true, and_true]
+      exact h.inv a b
+  · apply acyclic_rewire (E := EdgeOf s.subsOf) sub (fun y => y ∈ rs) ?_ h.acyclic hnew
+    intro x y e
+    simp only [EdgeOf, applyOnly, Map.get_set] at e
+    by_cases hx : sub = x
+    · subst hx; simp only [if_true, mem_dedup] at e; exact .inr ⟨rfl, e⟩
+    · simp only [hx, if_false] at e; exact .inl ⟨fun e' => hx e'.symm, e⟩
+  · intro a
+    simp only [applyOnly, Map.get_set]
+    split
+    · exact nodup_dedup rs
+    · exact h.nodupSubs a
+  · intro a
+    simp only [applyOnly]
+    exact nodup_get_removeFrom _ _ _ (nodup_get_addTo _ _ _ h.nodupSubscribers) a
+
+theorem mapsGood_applySubscribe {s : State} (h : MapsGood s.subsOf s.subscribersOf) (sub r : Res)
+    (hnew : ¬ Reach (Edge s) r sub) :
+    MapsGood (applySubscribe s sub r).subsOf (applySubscribe s sub r).subscribersOf := by
+  refine ⟨?_, ?_, ?_, ?_⟩
+  · intro a b
+    simp only [applySubscribe, Map.get_set]
+    have := h.inv a b
+    by_cases ha : sub = a <;> by_cases hb : r = b <;> simp_all [eq_comm]
+  · apply acyclic_rewire (E := EdgeOf s.subsOf) sub (fun y => y = r ∨ y ∈ Map.get s.subsOf sub) ?_ h.acyclic
+    · rintro y (rfl | hy)
+      · exact hnew
+      · intro hre
+        exact h.acyclic sub (Path.of_edge_reach (show EdgeOf s.subsOf sub y from hy) hre)
+    · intro x y e
+      simp only [EdgeOf, applySubscribe, Map.get_set] at e
+      by_cases hx : sub = x
+      · subst hx; simp only [if_true, mem_ins] at e; exact .inr ⟨rfl, e⟩
+      · simp only [hx, if_false] at e; exact .inl ⟨fun e' => hx e'.symm, e⟩
+  · intro a
+    simp only [applySubscribe, Map.get_set]
+    split
+    · exact nodup_ins (h.nodupSubs sub)
+    · exact h.nodupSubs a
+  · intro a
+    simp only [applySubscribe, Map.get_set]
+    split
+    · exact nodup_ins (h.nodupSubscribers r)
+    · exact h.nodupSubscribers a
+
+
+/-! ## queues and the delivery loop -/
+
+/-- what a successful `put_nowait(ev)` does to a queue -/
+def push (ev : Item) (q : Queue) : Queue :=
+  { q with items := ev :: q.items, unfinished := q.unfinished + 1 }
+
+/-- `x` has a registered queue that accepts a put (not shut down, not full) -/
+def liveIn (qs : Assoc Queue) (x : Res) : Bool :=
+  match qs.find? x with
+  | some q => q.live
+  | none => false
+
+theorem putNowait_live {q : Queue} (ev : Item) (h : q.live = true) : q.putNowait ev = .ok (push ev q) := by
+  simp only [Queue.live, Bool.and_eq_true, Bool.not_eq_true'] at h
+  simp [Queue.putNowait, h.1, h.2, push]
+
+theorem putNowait_not_live {q : Queue} (ev : Item) (h : q.live = false) : ∃ e, q.putNowait ev = .error e := by
+  unfold Queue.putNowait
+  by_cases h1 : q.shut = true
+  · exact ⟨.shutDown, by simp [h1]⟩
+  · by_cases h2 : q.full = true
+    · exact ⟨.full, by simp [h1, h2]⟩
+    · simp [Queue.live, h1, h2] at h
+
+theorem putNowait_shut {q : Queue} (ev : Item) (h : q.shut = true) : q.putNowait ev = .error .shutDown := by
+  simp [Queue.putNowait, h]
+
+/-- with both exception classes caught the loop never raises, delivers to exactly the live
+    subscribers (in list order) and touches nobody else's queue -/
+theorem deliver_spec (caught : QErr → Bool) (hc : ∀ e, caught e = true) (ev : Item) :
+    ∀ (xs : List Res) (qs : Assoc Queue), xs.Nodup →
+      ∃ qs' ds, deliver caught ev xs qs = .ok (qs', ds) ∧ ds = xs.filter (liveIn qs) ∧
+        ∀ y, qs'.find? y = if y ∈ ds then (qs.find? y).map (push ev) else qs.find? y := by
+  intro xs
+  induction xs with
+  | nil => intro qs _; exact ⟨qs, [], rfl, rfl, by simp⟩
+  | cons x xs ih =>
+    intro qs hn
+    obtain ⟨hx, hn'⟩ := List.nodup_cons.mp hn
+    cases hf : qs.find? x with
+    | none =>
+      obtain ⟨qs', ds, h1, h2, h3⟩ := ih qs hn'
+      refine ⟨qs', ds, ?_, ?_, h3⟩
+      · simp [deliver, hf, h1]
+      · simp [liveIn, hf, h2]
+    | some q =>
+      cases hl : q.live with
+      | true =>
+        obtain ⟨qs', ds, h1, h2, h3⟩ := ih (qs.set x (push ev q)) hn'
+        have hds : ds = xs.filter (liveIn qs) := by
+          rw [h2]
+          apply List.filter_congr
+          intro y hy
+          have : x ≠ y := fun e => hx (e ▸ hy)
+          simp [liveIn, Assoc.find_set, this]
+        have hxds : x ∉ ds := by
+          rw [hds]; intro hm; exact hx (List.mem_filter.mp hm).1
+        refine ⟨qs', x :: ds, ?_, ?_, ?_⟩
+        · simp [deliver, hf, putNowait_live ev hl, h1]
+        · simp [liveIn, hf, hl, hds]
+        · intro y
+          rw [h3 y, Assoc.find_set]
+          by_cases hxy : x = y
+          · subst hxy; simp [hxds, hf]
+          · have : y ≠ x := fun e => hxy e.symm
+            simp [hxy, this]
+      | false =>
+        obtain ⟨e, he⟩ := putNowait_not_live ev hl
+        obtain ⟨qs', ds, h1, h2, h3⟩ := ih qs hn'
+        refine ⟨qs', ds, ?_, ?_, h3⟩
+        · simp [deliver, hf, he, hc e, h1]
+        · simp [liveIn, hf, hl, h2]
+
+theorem qinv_push {ev : Item} {q : Queue} (h : q.unfinished = q.items.length) :
+    (push ev q).unfinished = (push ev q).items.length := by
+  simp [push, h]
+
+theorem qinv_killQ {q : Queue} (h : q.unfinished = q.items.length) :
+    (killQ q).unfinished = (killQ q).items.length := by
+  unfold killQ Queue.putNowait
+  by_cases h1 : q.shut = true
+  · simp [h1, h]
+  · by_cases h2 : q.full = true
+    · simp [h1, h2, Queue.shutdown, h]
+    · simp [h1, h2, Queue.shutdown, h]
+
+theorem killQ_shut (q : Queue) : (killQ q).shut = true := by
+  unfold killQ Queue.putNowait
+  by_cases h1 : q.shut = true
+  · simp [h1]
+  · by_cases h2 : q.full = true
+    · simp [h1, h2, Queue.shutdown]
+    · simp [h1, h2, Queue.shutdown]
+
+theorem qinv_deliver {caught : QErr → Bool} (hc : ∀ e, caught e = true) {ev : Item} {xs : List Res}
+    {qs qs' : Assoc Queue} {ds : List Res} (hn : xs.Nodup) (hq : QInv qs)
+    (h : deliver caught ev xs qs = .ok (qs', ds)) : QInv qs' := by
+  obtain ⟨qs'', ds', h1, _, h3⟩ := deliver_spec caught hc ev xs qs hn
+  rw [h1] at h
+  injection h with h; injection h with ha hb; subst ha; subst hb
+  intro r q hr
+  rw [h3 r] at hr
+  split at hr
+  · cases hf : qs.find? r with
+    | none => simp [hf] at hr
+    | some q0 =>
+      simp [hf] at hr; subst hr
+      exact qinv_push (hq r q0 hf)
+  · exact hq r q hr
+
+/-- `notify_subscribers` of the repaired code, as a state transformer with its specification -/
+theorem notifyWith_spec (caught : QErr → Bool) (hc : ∀ e, caught e = true) (s : State) (r : Res)
+    (t : Option Nat) (wrap : List Res → Out) (hn : (s.subscribers r).Nodup) :
+    ∃ qs' ds, notifyWith caught s r t wrap = ({ s with queues := qs' }, wrap ds) ∧
+      ds = (s.subscribers r).filter (liveIn s.queues) ∧
+      (∀ y, qs'.find? y = if y ∈ ds then (s.queues.find? y).map (push (.event r t)) else s.queues.find? y) := by
+  obtain ⟨qs', ds, h1, h2, h3⟩ := deliver_spec caught hc (.event r t) (s.subscribers r) s.queues hn
+  exact ⟨qs', ds, by simp [notifyWith, h1], h2, h3⟩
+
+theorem caughtRepaired_all : ∀ e, caughtRepaired e = true := by intro e; cases e <;> rfl
+
+
+theorem deliver_ok_of_caught_all (caught : QErr → Bool) (hc : ∀ e, caught e = true) (ev : Item) :
+    ∀ (xs : List Res) (qs : Assoc Queue), ∃ res, deliver caught ev xs qs = .ok res := by
+  intro xs
+  induction xs with
+  | nil => intro qs; exact ⟨_, rfl⟩
+  | cons x xs ih =>
+    intro qs
+    unfold deliver
+    cases qs.find? x with
+    | none => exact ih qs
+    | some q =>
+      cases hp : q.putNowait ev with
+      | ok q' =>
+        obtain ⟨⟨qs', ds⟩, h⟩ := ih (qs.set x q')
+        exact ⟨(qs', x :: ds), by simp [hp, h]⟩
+      | error e => simp only [hp, hc e, if_true]; exact ih qs
+
+theorem qinv_of_pushed {qs qs' : Assoc Queue} {ds : List Res} {ev : Item} (hq : QInv qs)
+    (h3 : ∀ y, qs'.find? y = if y ∈ ds then (qs.find? y).map (push ev) else qs.find? y) : QInv qs' := by
+  intro r q hr
+  rw [h3 r] at hr
+  split at hr
+  · cases hf : qs.find? r with
+    | none => simp [hf] at hr
+    | some q0 =>
+      simp [hf] at hr; subst hr
+      exact qinv_push (hq r q0 hf)
+  · exact hq r q hr
+
+theorem mapsGood_unsub {so sr : Map} (h : MapsGood so sr) (sub r : Res) :
+    MapsGood (so.set sub (rem r (so.get sub))) (sr.set r (rem sub (sr.get r))) := by
+  refine ⟨?_, ?_, ?_, ?_⟩
+  · intro a b
+    simp only [Map.get_set]
+    have := h.inv a b
+    have := h.inv sub r
+    by_cases ha : sub = a <;> by_cases hb : r = b <;> simp_all [eq_comm]
+  · apply h.acyclic.mono
+    intro x y e
+    simp only [EdgeOf, Map.get_set] at e
+    split at e
+    · rename_i hx; subst hx; exact (mem_rem.mp e).1
+    · exact e
+  · intro a
+    simp only [Map.get_set]
+    split
+    · exact nodup_rem (h.nodupSubs sub)
+    · exact h.nodupSubs a
+  · intro a
+    simp only [Map.get_set]
+    split
+    · exact nodup_rem (h.nodupSubscribers r)
+    · exact h.nodupSubscribers a
+
+/-- what a notification does to a good state: maps untouched, queues still consistent -/
+theorem good_notifyWith {s : State} (h : Good s) (r : Res) (t : Option Nat) (wrap : List Res → Out) :
+    Good (notifyWith caughtRepaired s r t wrap).1 := by
+  obtain ⟨qs', ds, h1, _, h3⟩ :=
+    notifyWith_spec caughtRepaired caughtRepaired_all s r t wrap (h.1.nodupSubscribers r)
+  rw [h1]
+  exact ⟨h.1, qinv_of_pushed h.2 h3⟩
+
+/-- the invariant is inductive -/
+theorem good_step {s : State} (h : Good s) (op : Op) : Good (step s op).1 := by
+  obtain ⟨hm, hq⟩ := h
+  cases op with
+  | register r cap =>
+    simp only [step, stepWith]
+    cases hf : s.queues.find? r with
+    | some q => exact ⟨hm, hq⟩
+    | none =>
+      apply good_notifyWith
+      refine ⟨hm, ?_⟩
+      intro r' q hr
+      simp only [Assoc.find_set] at hr
+      split at hr
+      · cases hr; rfl
+      · exact hq r' q hr
+  | subscribe sub r =>
+    simp only [step, stepWith]
+    cases hc : checkForCycles s sub [r] with
+    | cycle => exact ⟨hm, hq⟩
+    | outOfFuel => exact ⟨hm, hq⟩
+    | ok =>
+      refine ⟨mapsGood_applySubscribe hm sub r ?_, hq⟩
+      intro hre
+      have := (check_complete s sub [r] hm.acyclic (fuelFor s) (Nat.le_refl _)).2 ⟨r, by simp, hre⟩
+      rw [checkForCycles] at hc
+      rw [hc] at this; cases this
+  | subscribeOnlyTo sub rs =>
+    simp only [step, stepWith]
+    cases hc : checkForCycles s sub rs with
+    | cycle => exact ⟨hm, hq⟩
+    | outOfFuel => exact ⟨hm, hq⟩
+    | ok =>
+      refine ⟨mapsGood_applyOnly hm sub rs ?_, hq⟩
+      intro r hr hre
+      have := (check_complete s sub rs hm.acyclic (fuelFor s) (Nat.le_refl _)).2 ⟨r, hr, hre⟩
+      rw [checkForCycles] at hc
+      rw [hc] at this; cases this
+  | unsubscribe sub r =>
+    simp only [step, stepWith]
+    by_cases h1 : sub ∈ s.subscribersOf.get r
+    · have h2 : r ∈ s.subsOf.get sub := (hm.inv sub r).mpr h1
+      simp only [h1, h2, if_true]
+      exact ⟨mapsGood_unsub hm sub r, hq⟩
+    · simp only [h1, if_false]
+      exact ⟨hm, hq⟩
+  | notify r t => exact good_notifyWith ⟨hm, hq⟩ r (some t) .delivered
+  | kill r =>
+    simp only [step, stepWith]
+    cases hf : s.queues.find? r with
+    | none => exact ⟨hm, hq⟩
+    | some q =>
+      refine ⟨hm, ?_⟩
+      intro r' q' hr
+      simp only [Assoc.find_set] at hr
+      split at hr
+      · cases hr; exact qinv_killQ (hq r q hf)
+      · exact hq r' q' hr
+  | deregister r t =>
+    simp only [step, stepWith]
+    have hm1 := mapsGood_applyOnly hm r [] (by simp)
+    have hq1 : QInv (applyOnly s r []).queues := hq
+    cases hf : (applyOnly s r []).queues.find? r with
+    | none => exact good_notifyWith ⟨hm1, hq1⟩ r (some t) _
+    | some q =>
+      apply good_notifyWith
+      refine ⟨hm1, ?_⟩
+      intro r' q' hr
+      simp only [Assoc.find_del] at hr
+      split at hr
+      · cases hr
+      · exact hq1 r' q' hr
+
+theorem good_run {s : State} (h : Good s) (ops : List Op) : Good (run s ops) := by
+  induction ops generalizing s with
+  | nil => exact h
+  | cons op ops ih => exact ih (good_step h op)
 
 end Koreo.Registry
